@@ -115,7 +115,7 @@ int simk_fputs(const char *s, FILE *f) { if (std_stream(f)) { simk_printf("%s", 
 int simk_fputc(int c, FILE *f) { return std_stream(f) ? c : fputc(c, f); }
 int simk_putc(int c, FILE *f) { return std_stream(f) ? c : putc(c, f); }
 int simk_putchar(int c) { return c; }
-size_t simk_fwrite(const void *p, size_t sz, size_t n, FILE *f) { if (std_stream(f)) { simk_printf("%s", sz * n ? (const char *)p : ""); return n; } return fwrite(p, sz, n, f); }
+size_t simk_fwrite(const void *p, size_t sz, size_t n, FILE *f) { if (std_stream(f)) { simk_printf("%s", (sz != 0 && n != 0) ? (const char *)p : ""); return n; } return fwrite(p, sz, n, f); }
 int simk_fflush(FILE *f) { return (!f || std_stream(f)) ? 0 : fflush(f); }
 void simk_perror(const char *s) { simk_printf("%s", s ? s : ""); }
 
